@@ -231,6 +231,19 @@ OPERATOR_SHAPES = [
     "(loop* [i 0] (if (operator/lt i 2) (recur (operator/add i 1)) (t! 1 i)))",
     "((fn* [] (do (throw (python/ValueError (t! 1 \"x\"))) (t! 2 1))))",
     "(def *cg* 1) ((fn* [] (def *cg* (t! 1 2)) (def *cg* (t! 2 3)) *cg*))",
+    # operands that have effects without being plain calls once the pass has rewritten them (BinOp, Subscript, attribute of a call)
+    "(operator/contains (operator/add (t! 1 [1]) (t! 2 [2])) (t! 3 1))",
+    "(operator/contains (operator/getitem (t! 1 [[1 2]]) (t! 2 0)) (t! 3 1))",
+    "(operator/contains (.-args (t! 1 (python/ValueError 1 2))) (t! 2 1))",
+    "(operator/contains (t! 1 [1]) (operator/add (t! 2 0) (t! 3 1)))",
+    "(try (operator/contains (operator/getitem (t! 1 [1]) 5) (t! 2 1)) (catch python/IndexError _ :index-error))",
+    "(operator/is- (operator/add (t! 1 1) (t! 2 1)) (operator/sub (t! 3 3) (t! 4 1)))",
+    "(operator/lt (operator/getitem (t! 1 [1]) 0) (operator/getitem (t! 2 [2]) 0))",
+    # statements that are attribute loads: they can raise and run property code, so they may not be dropped
+    "(let* [o (t! 1 5)] (try (do (.-nope o) :no-raise) (catch python/AttributeError _ :raised)))",
+    "(try ((fn* [o] (.-nope o) :done) (t! 1 5)) (catch python/AttributeError _ :raised))",
+    "(let* [o (t! 1 5)] (.-real o) (.-imag o) (t! 2 :end))",
+    "(let* [o (t! 1 \"s\")] (try (do (. o -nope) (.-nope2 o) 1) (catch python/AttributeError e (t! 2 :raised))))",
 ]
 
 
